@@ -43,9 +43,23 @@ def connect(**tables_):
     return conn
 
 
+_PARSE_CACHE = {}
+
+
+def _parse_cached(text):
+    tree = _PARSE_CACHE.get(text)
+    if tree is None:
+        tree = beanquery.parser.parse(text)
+        if any(isinstance(n, beanquery.parser.ast.Placeholder) for n in tree.walk()):
+            return tree         # the compiler renumbers placeholders on the tree: never share
+        _PARSE_CACHE[text] = tree
+    return tree
+
+
 def parse(text):
-    """Parse concrete text with the real parser at native speed (R5)."""
-    return h.native(beanquery.parser.parse, text)
+    """Parse concrete text with the real parser at native speed (R5).  Trees without
+    placeholders are cached per process (the same text recurs on every path)."""
+    return h.native(_parse_cached, text)
 
 
 def run(conn, text_or_ast, params=None):
@@ -54,6 +68,16 @@ def run(conn, text_or_ast, params=None):
     cur = conn.cursor()
     cur.execute(stmt, params)
     return cur.description, cur.fetchall()
+
+
+def execute(conn, stmt, params=None):
+    """Compile natively (the statement is concrete: nothing for the solver to decide), execute
+    symbolically.  Returns (description, rows) as Cursor.execute + fetchall would."""
+    from beanquery import compiler, query_execute
+    if isinstance(stmt, str):
+        stmt = parse(stmt)
+    query = h.native(compiler.compile, conn, stmt, params)
+    return query_execute.execute_query(query)
 
 
 D = decimal.Decimal
